@@ -46,6 +46,10 @@ func init() {
 			{ID: "R19r", Floor: 1, Doc: "`car filter --append` never starts its output over (= R06p)", Run: ruleR06p},
 			{ID: "R19s", Floor: 1, Doc: "a command that can emit its product on standard output prints nothing else there: no function of cmd/car that holds os.Stdout as an output stream calls fmt.Print/Printf/Println", Run: ruleR19s},
 			{ID: "R19t", Floor: 1, Doc: "get-dag reads matched large-bytes nodes to the end: the WalkMatching visitor of writeCarV2 copies AsLargeBytes() of the matched node (the leaf blocks of a reified file are loaded only when its bytes are read)", Run: ruleR19t},
+			{ID: "R19u", Floor: 1, Doc: "car create sets no parser option for its destination (= R18t)", Run: ruleR18t},
+			{ID: "R19v", Floor: 1, Doc: "car inspect reports what the library's inspection reports: InspectCar calls lib.InspectCar and no other checker of cmd/car/lib", Run: ruleR19v},
+			{ID: "R19w", Floor: 1, Doc: "`car filter --append` resumes an output with every block it holds indexed (= R12c)", Run: ruleR12c},
+			{ID: "R19x", Floor: 7, Doc: "a header re-encodes to its source bytes: car index and car concat position by HeaderSize (= R01c)", Run: ruleR01c},
 		},
 	})
 }
@@ -611,6 +615,60 @@ func ruleR19e(c *Ctx, r *Report) {
 		}
 		args := calls[0].Common().Args
 		v := args[len(args)-1]
+		// the flag as the callee uses it: the value it stores into Config.LinkVisitOnlyOnce, followed
+		// back to the caller's argument (a bool parameter, or a field of an options struct passed by value)
+		if callee := staticTarget(calls[0].Common()); callee != nil && callee.Blocks != nil {
+			for _, g := range withAnon(callee) {
+				eachInstr(g, func(in ssa.Instruction) {
+					st, ok := in.(*ssa.Store)
+					if !ok {
+						return
+					}
+					fa, ok := st.Addr.(*ssa.FieldAddr)
+					if !ok {
+						return
+					}
+					if fv := fieldVar(fa.X.Type(), fa.Field); fv == nil || fv.Name() != "LinkVisitOnlyOnce" {
+						return
+					}
+					sv := canon(st.Val)
+					paramIdx := func(p ssa.Value) int {
+						for i, q := range callee.Params {
+							if ssa.Value(q) == p {
+								return i
+							}
+						}
+						return -1
+					}
+					if i := paramIdx(sv); i >= 0 && i < len(args) {
+						v = args[i]
+						return
+					}
+					if fvv, base := fieldOfLoad(sv); fvv != nil && base != nil {
+						// base: the spill cell of a struct parameter
+						var pv ssa.Value = base
+						if al, ok := base.(*ssa.Alloc); ok {
+							for _, s2 := range storesTo(al) {
+								pv = s2.Val
+							}
+						}
+						if i := paramIdx(pv); i >= 0 && i < len(args) {
+							if l, ok := args[i].(*ssa.UnOp); ok && l.Op == token.MUL {
+								if st8, ok := callee.Params[i].Type().Underlying().(*types.Struct); ok {
+									for k := 0; k < st8.NumFields(); k++ {
+										if st8.Field(k) == fvv {
+											if w := localStructField(l.X, k, 0, l); w != nil {
+												v = w
+											}
+										}
+									}
+								}
+							}
+						}
+					}
+				})
+			}
+		}
 		base, neg := condNorm(canon(v))
 		cl, _ := callOf(base)
 		ok := neg && cl != nil && calleeFunc(cl.Common()) != nil && calleeFunc(cl.Common()).Name() == "IsSet"
